@@ -104,6 +104,20 @@ def same_as_fresh(k, w, w2):
     return None
 
 
+def mixed_dataset_run(rng, k, nds=3, cuda=False):
+    """One simulator with several delay datasets and MIXED per-simulation selection modes: lanes in mode 0 use the dataset named by the
+    propagation seed, lanes in mode 1 the dataset of their own control entry.  -> (simulator, dataset array, effective dataset per lane)"""
+    dsets = np.stack([wc.gen_delays(rng, len(k.c.lines), 'full')[0] for _ in range(nds)])
+    g = rng.randrange(nds)
+    pick = [rng.randrange(nds) for _ in range(k.sims)]
+    mode = [rng.randint(0, 1) for _ in range(k.sims)]
+    if k.sims > 1 and len(set(mode)) == 1:
+        mode[rng.randrange(k.sims)] ^= 1
+    ctl = np.array([pick, mode], dtype=np.int32)
+    w = wc.run_wavesim(k.c, dsets, k.sims, k.caps, k.reuse, k.strip, k.s0, k.s1, k.s2, k.extra, k.tcap, cuda=cuda, simctl=ctl, seed=g)
+    return w, dsets, [g if mode[l] == 0 else pick[l] for l in range(k.sims)], {'datasets': dsets.tolist(), 'seed': g, 'simctl': ctl.tolist()}
+
+
 def warm_replay(d):
     """replay of a 'simulator reuse' failure: True if the used simulator still differs from the fresh one"""
     k = from_description(d)
